@@ -4,386 +4,926 @@ Sources: osaca/frontend.py (titles, warning texts, format strings and their widt
 symbol map), osaca/osaca.py (DEFAULT_ARCHS, the length-warning threshold and the shape of the two
 warning flags), osaca/semantics/isa_semantics.py (INSTR_FLAGS values).
 
-Literals are located by structure (the function they live in, the shape of the expression), format
-strings are matched against the shape the model implements and only their numbers are taken; a
-format string of a different shape is a TranslateError (= broken tie, the check then searches).
-Constant string expressions (`"a" "b" + dashed_line`, `"-" * (2 * 6 + len(col_sep))`) are evaluated
-with the function's own earlier constant assignments as environment.
+The source is read by MEANING (helpers in astutil_G3.py):
+
+* numbers and texts are constant EXPRESSIONS (`2 * 6`, `2 + 2`, adjacent / concatenated strings,
+  locals of any name bound once, class attributes, module constants), evaluated by `const_eval`;
+* `%`-format, `str.format`, f-strings, `+` and `str(x)` are brought to one template form
+  (`Templates`, `skeleton`); constant fields are folded into the text, so `"{}{:^6}{}".format(col_sep,
+  "CP", col_sep)`, its f-string and the literal `"|  CP  |"` are the same thing, and the cell widths
+  and titles are recovered from the resulting text;
+* locals are found by what they are used for (the accumulator that is returned, the argument of
+  `_get_separator_list`, the argument of the centring format, the variable `_get_max_port_len` is
+  assigned to), not by their names; arithmetic is compared in linear normal form
+  (`port_len[i] - left_len - 1` = `port_len[i] - (left_len + 1)`); tests in negation normal form
+  (`if not a and b: X else: Y` = `if a or not b: Y else: X` = guard clause with early return);
+  the running maximum may be an `if`, a conditional expression or `max(...)`;
+* order-free tables are emitted in one canonical order: `DEFAULT_ARCHS` (only ever subscripted)
+  by key, the symbol texts (iterated through `sorted(...)`) in the order of the flag symbols.
+
+DYNAMIC reading.  Five small helpers of `Frontend` are pure text builders of their arguments:
+`_user_warnings_header`, `_user_warnings_footer`, `_missing_instruction_error`, `_get_flag_symbols`
+and `_symbol_map`.  They are compiled ALONE from their AST in an empty name space (white-listed
+builtins, constants of the module, an `INSTR_FLAGS` stand-in, a stub `self` carrying only the class
+constants and, for `_symbol_map`, the isolated `_get_flag_symbols`) and CALLED on probe arguments; the
+constants are recovered from the results and the recovered form is checked against further probes
+(so any behaviour-preserving rewrite is accepted and any rewrite that leaves the modelled form is a
+TranslateError).  The same is done, as before, for the statements that build the first `separator`
+of `combined_view`.  `_get_max_port_len` is read statically first (initial list, probe format,
+running maximum as `if` / conditional expression / `max`); only if its statements have another shape
+(e.g. comprehensions instead of loops) it is called in isolation with a stub machine model on probe
+kernels and must be  width[i] = max(m, max len('%.<d>f' % pressure[i]))  on all of them.
+Nothing is imported from the analysed tree; a helper that is no longer pure (uses
+`self._machine_model`, a non-white-listed builtin, ...) fails loudly.
+
+Still required (TranslateError otherwise = broken tie, the check then searches): the functions
+exist under their names; each format has the field structure the model implements (only numbers and
+texts vary); parameter names of the public report functions (`ignore_unknown`, `arch_warning`, ...)
+and `args.arch` / `args.lines` in `inspect`.
 """
 import ast
+import os
 import re
+import sys
 
-from translate import TranslateError, generator, parse, find_func, txt, HEADER
+
+
+def _load_helpers():
+    """astutil_G3.py from this directory, without putting the directory on sys.path"""
+    import importlib.util
+
+    if "astutil_G3" not in sys.modules:
+        path = os.path.join(os.path.dirname(os.path.abspath(__file__)), "astutil_G3.py")
+        spec = importlib.util.spec_from_file_location("astutil_G3", path)
+        mod = importlib.util.module_from_spec(spec)
+        sys.modules["astutil_G3"] = mod
+        try:
+            spec.loader.exec_module(mod)
+        except BaseException:
+            del sys.modules["astutil_G3"]
+            raise
+    return sys.modules["astutil_G3"]
+
+
+A = _load_helpers()
+from translate import TranslateError, generator, parse, find_func, txt, HEADER  # noqa: E402
 
 FRONT = "osaca/frontend.py"
 MAIN = "osaca/osaca.py"
 ISA = "osaca/semantics/isa_semantics.py"
 
-SAFE = {"len": len, "str": str, "max": max, "min": min, "sum": sum, "int": int}
+
+def esc(s):
+    """literal text as it appears in a skeleton"""
+    return s.replace("{", "{{").replace("}", "}}")
 
 
-def ceval(node, env):
-    """evaluate a constant expression; TranslateError if it is not one"""
-    try:
-        code = compile(ast.Expression(body=node), "<gen>", "eval")
-        e = dict(SAFE)
-        e.update(env)
-        return eval(code, {"__builtins__": {}}, e)
-    except Exception as ex:  # noqa
-        raise TranslateError("not a constant expression at line %s: %s" % (getattr(node, "lineno", "?"), ex))
-
-
-def local_consts(fn, extra=None):
-    """names assigned (top level of the function body, in order) to constant str/int expressions"""
-    env = dict(extra or {})
-    for st in fn.body:
-        if isinstance(st, ast.Assign) and len(st.targets) == 1 and isinstance(st.targets[0], ast.Name):
-            try:
-                v = ceval(st.value, env)
-            except TranslateError:
-                continue
-            if isinstance(v, (str, int)):
-                env[st.targets[0].id] = v
-    return env
-
-
-def str_consts(fn):
-    return [n.value for n in ast.walk(fn) if isinstance(n, ast.Constant) and isinstance(n.value, str)]
-
-
-def one_match(fn, pattern, what):
-    """the unique string literal of fn that fullmatches pattern"""
-    hits = []
-    for s in str_consts(fn):
-        m = re.fullmatch(pattern, s, re.S)
-        if m:
-            hits.append(m)
-    if not hits:
-        raise TranslateError("%s: no literal of the expected shape %r" % (what, pattern))
-    if len({h.group(0) for h in hits}) != 1:
-        raise TranslateError("%s: several different literals match %r" % (what, pattern))
-    return hits[0]
+def unesc(s):
+    return s.replace("{{", "{").replace("}}", "}")
 
 
 def instr_flags():
     t = parse(ISA)
-    for node in ast.walk(t):
-        if isinstance(node, ast.ClassDef) and node.name == "INSTR_FLAGS":
-            out = {}
-            for st in node.body:
-                if isinstance(st, ast.Assign) and isinstance(st.value, ast.Constant) and isinstance(st.value.value, str):
-                    out[st.targets[0].id] = st.value.value
-            return out
-    raise TranslateError("class INSTR_FLAGS not found")
+    cls = A.find_class(t, "INSTR_FLAGS")
+    sc = A.Scope(t, cls)
+    out = {}
+    for st in cls.body:
+        if isinstance(st, (ast.Assign, ast.AnnAssign)):
+            tgts = st.targets if isinstance(st, ast.Assign) else [st.target]
+            if len(tgts) == 1 and isinstance(tgts[0], ast.Name) and st.value is not None:
+                try:
+                    v = A.const_eval(st.value, sc)
+                except A.NotConst:
+                    continue
+                if isinstance(v, str):
+                    out[tgts[0].id] = v
+    if not out:
+        raise TranslateError("class INSTR_FLAGS has no string constants")
+    return out
 
 
-def flag_attr(node, flags):
-    if isinstance(node, ast.Attribute) and isinstance(node.value, ast.Name) and node.value.id == "INSTR_FLAGS":
-        if node.attr in flags:
-            return flags[node.attr]
-    raise TranslateError("expected INSTR_FLAGS.<NAME> at line %s" % getattr(node, "lineno", "?"))
+class Fn:
+    """one function of the source with its scope and its templates"""
+
+    def __init__(self, base, cls, name):
+        self.name = (cls.name + "." if cls is not None else "") + name
+        self.node = A.find_method(cls, name) if cls is not None else find_func(base.module, name)
+        self.sc = base.at(cls=cls, fn=self.node)
+        self.T = A.Templates(self.sc)
+        self._roots = None
+        self.parents = {}
+        for n in ast.walk(self.node):
+            for c in ast.iter_child_nodes(n):
+                self.parents[id(c)] = n
+
+    def fail(self, msg):
+        raise TranslateError("%s: %s" % (self.name, msg))
+
+    @property
+    def roots(self):
+        if self._roots is None:
+            self._roots = [(n, t, A.skeleton(t)) for n, t in self.T.roots(self.node)]
+        return self._roots
+
+    def skel_matches(self, pattern):
+        return [(n, t, m) for n, t, s in self.roots for m in [re.fullmatch(pattern, s, re.S)] if m]
+
+    def one_skel(self, pattern, what, at_least=1):
+        """the template(s) whose skeleton fullmatches pattern; all must have the same skeleton"""
+        hits = self.skel_matches(pattern)
+        if len(hits) < at_least:
+            self.fail("%s: no format of the expected shape %r" % (what, pattern))
+        if len({m.group(0) for _, _, m in hits}) != 1:
+            self.fail("%s: several different formats match %r" % (what, pattern))
+        return hits[0]
+
+    def const(self, node, what, types=None, env=None):
+        return A.const_or_fail(node, self.sc, "%s: %s" % (self.name, what), types, env)
+
+    def char(self, node, what):
+        v = self.const(node, what, str)
+        if len(v) != 1:
+            self.fail("%s is not one character: %r" % (what, v))
+        return v
+
+    def returned_name(self):
+        names = set()
+        for n in A.walk_scope(self.node):
+            if isinstance(n, ast.Return):
+                if not isinstance(n.value, ast.Name):
+                    self.fail("returns something else than its accumulator")
+                names.add(n.value.id)
+        if len(names) != 1:
+            self.fail("expected one returned accumulator, got %r" % sorted(names))
+        return names.pop()
+
+    def title(self):
+        """constant initial value of the accumulator the function returns"""
+        name = self.returned_name()
+        v = self.sc.accumulator_init(self.node, name)
+        if v is None:
+            self.fail("accumulator `%s` is not `x = <title>` followed by `x += ...`" % name)
+        return self.const(v, "title", str)
+
+    def default_of_last_param(self, what):
+        if len(self.node.args.defaults) < 1:
+            self.fail("%s: default not found" % what)
+        return self.char(self.node.args.defaults[-1], what)
+
+    def calls(self, method):
+        return [n for n in A.walk_in_order(self.node) if isinstance(n, ast.Call) and isinstance(n.func, ast.Attribute)
+                and n.func.attr == method]
+
+    def self_calls(self, method):
+        return [n for n in self.calls(method) if isinstance(n.func.value, ast.Name) and n.func.value.id in ("self", "cls")]
+
+    def rd(self, node):
+        return A.rdump(node, self.sc)
 
 
-@generator("ReportConsts", [FRONT, MAIN, ISA])
-def gen_reportconsts():
-    tf = parse(FRONT)
-    flags = instr_flags()
-    C = {}
+def natural(fn, text, what):
+    if not re.fullmatch(r"\d+", text or ""):
+        fn.fail("%s is not a natural number: %r" % (what, text))
+    return int(text)
 
-    # ---- _get_max_port_len: [4 for x in ports], "{:.2f}"
-    fn = find_func(tf, "_get_max_port_len", "Frontend")
-    mins = [n.elt.value for n in ast.walk(fn) if isinstance(n, ast.ListComp) and isinstance(n.elt, ast.Constant)
-            and isinstance(n.elt.value, int)]
-    if len(mins) != 1:
-        raise TranslateError("_get_max_port_len: initial width list not found")
-    C["minPortLen"] = mins[0]
-    C["portLenDecimals"] = int(one_match(fn, r"\{:\.(\d+)f\}", "_get_max_port_len").group(1))
-    n_fmt = sum(1 for s in str_consts(fn) if re.fullmatch(r"\{:\.(\d+)f\}", s))
-    if n_fmt != 2:
-        raise TranslateError("_get_max_port_len: expected the format literal twice (test and assignment)")
-    cmp_ok = [n for n in ast.walk(fn) if isinstance(n, ast.Compare) and len(n.ops) == 1 and isinstance(n.ops[0], ast.Gt)]
-    if len(cmp_ok) != 1:
-        raise TranslateError("_get_max_port_len: expected one `>` comparison (running maximum)")
 
-    # ---- _get_port_pressure
-    fn = find_func(tf, "_get_port_pressure", "Frontend")
-    C["fallbackDecimals"] = int(one_match(fn, r"\{:\.(\d+)f\}\{\} ", "_get_port_pressure fallback").group(1))
-    sc = str_consts(fn)
-    if sc.count(" {} ") != 2 or sc.count("{} ") != 1 or "{:" not in sc or "f}" not in sc or "." not in sc:
-        raise TranslateError("_get_port_pressure: cell format pieces changed: %r" % sc)
+# --------------------------------------------------------------------------- frontend pieces
+def max_port_len(f, C):
+    ret = f.returned_name()
+    init = f.sc.single(f.node, ret)
+    if init is None:
+        f.fail("initial width list not found")
+    v = None
+    if isinstance(init, ast.ListComp) and len(init.generators) == 1:
+        try:
+            v = A.const_eval(init.elt, f.sc)  # must not depend on the loop variable
+        except A.NotConst:
+            v = None
+    elif isinstance(init, ast.BinOp) and isinstance(init.op, ast.Mult):
+        for side in (init.left, init.right):
+            if isinstance(side, ast.List) and len(side.elts) == 1:
+                try:
+                    v = A.const_eval(side.elts[0], f.sc)
+                except A.NotConst:
+                    v = None
+    if not isinstance(v, int) or isinstance(v, bool):
+        f.fail("initial width list not found")
+    C["minPortLen"] = v
+    _, _, m = f.one_skel(r"\{:\.(\d+)f\}", "width probe format")
+    C["portLenDecimals"] = int(m.group(1))
+    fmt_nodes = [n for n, _, _ in f.skel_matches(r"\{:\.(\d+)f\}")]
+
+    def is_probe(node):  # len(<that format>) possibly through a local
+        d, _ = f.sc.deref(node)
+        return (isinstance(d, ast.Call) and isinstance(d.func, ast.Name) and d.func.id == "len" and len(d.args) == 1
+                and f.sc.deref(d.args[0])[0] in fmt_nodes)
+
+    # running maximum: cell = max(cell, probe), in one of its spellings
+    updates = 0
+    for n in A.walk_in_order(f.node):
+        if isinstance(n, ast.If) and not n.orelse and len(n.body) == 1 and isinstance(n.body[0], ast.Assign):
+            kind, lits = A.bool_lits(n.test, f.sc)
+            if len(lits) == 1 and lits[0].cmp:
+                op, big, small = A.norm_compare(lits[0].cmp)
+                st = n.body[0]
+                if len(st.targets) == 1 and isinstance(st.targets[0], ast.Subscript):
+                    if (op in (ast.Gt, ast.GtE) and f.rd(st.targets[0]) == f.rd(small) and f.rd(st.value) == f.rd(big)
+                            and is_probe(big)):
+                        updates += 1
+                        continue
+                    f.fail("width update is not a running maximum")
+        if isinstance(n, ast.Assign) and len(n.targets) == 1 and isinstance(n.targets[0], ast.Subscript):
+            tgt, val = n.targets[0], f.sc.deref(n.value)[0]
+            if isinstance(f.parents.get(id(n)), ast.If) and not f.parents[id(n)].orelse:
+                continue  # judged above
+            if isinstance(val, ast.Call) and isinstance(val.func, ast.Name) and val.func.id == "max" and len(val.args) == 2 \
+                    and not val.keywords:
+                a, b = val.args
+                if (f.rd(a) == f.rd(tgt) and is_probe(b)) or (f.rd(b) == f.rd(tgt) and is_probe(a)):
+                    updates += 1
+                    continue
+            if isinstance(val, ast.IfExp):
+                kind, lits = A.bool_lits(val.test, f.sc)
+                if len(lits) == 1 and lits[0].cmp:
+                    op, big, small = A.norm_compare(lits[0].cmp)
+                    if op in (ast.Gt, ast.GtE) and {f.rd(big), f.rd(small)} == {f.rd(val.body), f.rd(val.orelse)} \
+                            and f.rd(val.body) == f.rd(big) and (is_probe(big) or is_probe(small)) \
+                            and f.rd(tgt) in (f.rd(big), f.rd(small)):
+                        updates += 1
+                        continue
+            f.fail("width update is not a running maximum")
+    if updates != 1:
+        f.fail("expected one running-maximum update of the width list, found %d" % updates)
+
+
+def max_port_len_probe(base, cls, flags, C, static_error):
+    """fall-back when the statements of `_get_max_port_len` are not of a shape read statically (e.g. the
+    loops became comprehensions): the method is pure apart from `self._machine_model.get_ports()`, so it
+    is called in isolation on probe kernels and must BE  width[i] = max(m, max over the kernel of
+    len('%.<d>f' % pressure[i]))  for the m and d it shows on two probes."""
+    import itertools
+
+    class _Model:
+        def get_ports(self):
+            return ["0", "1", "2DV"]
+
+    class _Form:
+        def __init__(self, pp):
+            self.port_pressure = pp
+
+    call = sandboxed(base, cls, "_get_max_port_len", flags, _machine_model=_Model())
+    why = "Frontend._get_max_port_len: not read statically (%s) and, called in isolation, " % static_error
+    r0 = call([])
+    if not (isinstance(r0, list) and len(r0) == 3 and len(set(r0)) == 1 and isinstance(r0[0], int)
+            and not isinstance(r0[0], bool) and 0 <= r0[0] < 13):
+        raise TranslateError(why + "an empty kernel does not give one small width per port: %r" % (r0,))
+    m = r0[0]
+    big = call([_Form([123456789012.0, 0.0, 0.0])])
+    if not (isinstance(big, list) and len(big) == 3 and isinstance(big[0], int) and 12 <= big[0] <= 40 and big[1:] == [m, m]):
+        raise TranslateError(why + "a wide value does not widen exactly its own column: %r" % (big,))
+    d = max(big[0] - 13, 0)
+    values = [0.0, 0.5, 9.999, 99.995, 2.675, 1234.5, 123456.789, 1e7 + 0.125, 5, 0.004, 99999.9996]
+    kernels = [[]]
+    for a, b, c in itertools.islice(itertools.permutations(values, 3), 0, None, 37):
+        kernels.append([_Form([a, b, c])])
+    for k in range(0, len(values) - 3):
+        kernels.append([_Form(list(values[k:k + 3])), _Form(list(values[k + 1:k + 4][::-1])), _Form([0.0, 0.0, 0.0])])
+    for kern in kernels:
+        want = [max([m] + [len("%.*f" % (d, fm.port_pressure[i])) for fm in kern]) for i in range(3)]
+        got = call(kern)
+        if got != want:
+            raise TranslateError(why + "it is not the running maximum of len('%%.%df' %% pressure) above %d: %r instead of %r"
+                                 % (d, m, got, want))
+    C["minPortLen"], C["portLenDecimals"] = m, d
+
+
+def port_pressure(f, C):
+    _, _, m = f.one_skel(r"\{:\.(\d+)f\}\{\} ", "fallback format")
+    C["fallbackDecimals"] = int(m.group(1))
+    sk = [s for _, _, s in f.roots]
+    builder = [s for s in sk if s in ("{{:{}.{}f}}", "{{:{:d}.{:d}f}}", "{:{}.{}f}")]
+    if len(builder) != 1:
+        f.fail("cell format `{:<left>.<prec>f}` not found: %r" % sk)
+    if sk.count("{} ") < 1 or sk.count("{} {} ") < 2:
+        f.fail("cell format pieces changed: %r" % sk)
+    odd = [s for s in sk if s not in ("{} ", "{} {} ", builder[0]) and not re.fullmatch(r"\{:\.(\d+)f\}\{\} ", s)
+           and "{" in s]
+    if odd:
+        f.fail("unexpected format pieces: %r" % odd)
     # max(port_len[i] - left_len - K, 0)
     ks = []
-    for n in ast.walk(fn):
-        if isinstance(n, ast.Call) and isinstance(n.func, ast.Name) and n.func.id == "max" and len(n.args) == 2:
-            a, b = n.args
-            if (isinstance(a, ast.BinOp) and isinstance(a.op, ast.Sub) and isinstance(a.right, ast.Constant)
-                    and isinstance(a.left, ast.BinOp) and isinstance(a.left.op, ast.Sub)
-                    and isinstance(a.left.right, ast.Name) and isinstance(a.left.left, ast.Subscript)
-                    and isinstance(b, ast.Constant) and b.value == 0):
-                ks.append(a.right.value)
+    for n in A.walk_in_order(f.node):
+        if isinstance(n, ast.Call) and isinstance(n.func, ast.Name) and n.func.id == "max" and len(n.args) == 2 \
+                and not n.keywords:
+            for a, b in (n.args, n.args[::-1]):
+                try:
+                    zero = A.const_eval(b, f.sc)
+                except A.NotConst:
+                    continue
+                if zero != 0 or isinstance(zero, bool):
+                    continue
+                terms, c = A.linear(a, f.sc)
+                coeffs = sorted(k for k, _ in terms.values())
+                plus = [nd for k, nd in terms.values() if k == 1]
+                if coeffs == [-1, 1] and isinstance(plus[0], ast.Subscript):
+                    ks.append(-c)
     if len(ks) != 1:
-        raise TranslateError("_get_port_pressure: precision expression max(port_len[i] - left_len - K, 0) not found")
+        f.fail("precision expression max(port_len[i] - left_len - K, 0) not found")
     C["cellReserve"] = ks[0]
-    # the zero test and the slice [:-1]
-    sl = [n for n in ast.walk(fn) if isinstance(n, ast.Subscript) and isinstance(n.slice, ast.Slice)]
-    if len(sl) != 1 or sl[0].slice.lower is not None or ceval(sl[0].slice.upper, {}) != -1:
-        raise TranslateError("_get_port_pressure: result slice [:-1] not found")
+    sl = [n for n in ast.walk(f.node) if isinstance(n, ast.Subscript) and isinstance(n.slice, ast.Slice)]
+    if len(sl) != 1 or sl[0].slice.lower is not None or sl[0].slice.step is not None or sl[0].slice.upper is None \
+            or f.const(sl[0].slice.upper, "result slice") != -1:
+        f.fail("result slice [:-1] not found")
 
-    # ---- _get_separator_list / _get_port_number_line
-    fn = find_func(tf, "_get_separator_list", "Frontend")
-    if len(fn.args.defaults) != 1:
-        raise TranslateError("_get_separator_list: default of separator_2 not found")
-    C["groupSep"] = ord(ceval(fn.args.defaults[0], {}))
-    one_match(fn, r"\\d\+", "_get_separator_list regex")
-    fn = find_func(tf, "_get_port_number_line", "Frontend")
-    hs = [n for n in ast.walk(fn) if isinstance(n, ast.Call) and isinstance(n.func, ast.Attribute)
-          and n.func.attr == "_get_separator_list" and len(n.args) == 2]
+
+def separator_list(f, C):
+    C["groupSep"] = ord(f.default_of_last_param("default of separator_2"))
+    uses = A.regex_uses(f.node, f.sc)
+    want = A.regex_tree(r"\d+")
+    if not uses or any(m != "search" or A.regex_tree(p) != want or fl is not None for m, p, fl, _ in uses):
+        f.fail("regex: expected re.search(r'\\d+', ...) only")
+
+
+def port_number_line(f, C):
+    hs = f.self_calls("_get_separator_list")
     if len(hs) != 1:
-        raise TranslateError("_get_port_number_line: call of _get_separator_list(sep, x) not found")
-    C["headerGroupSep"] = ord(ceval(hs[0].args[1], {}))
-    pads = [n.right.value for n in ast.walk(fn) if isinstance(n, ast.BinOp) and isinstance(n.op, ast.Add)
-            and isinstance(n.left, ast.Name) and n.left.id == "length" and isinstance(n.right, ast.Constant)]
-    if len(pads) != 1 or "{:^" not in str_consts(fn) or "s}" not in str_consts(fn):
-        raise TranslateError("_get_port_number_line: centred width `length + K` not found")
-    C["headerPad"] = pads[0]
+        f.fail("call of _get_separator_list(sep, x) not found")
+    call = hs[0]
+    arg = call.args[1] if len(call.args) == 2 else None
+    for k in call.keywords:
+        if k.arg == "separator_2" and len(call.args) == 1:
+            arg = k.value
+    if arg is None:
+        f.fail("call of _get_separator_list(sep, x) not found")
+    C["headerGroupSep"] = ord(f.char(arg, "group separator of the header"))
+    widths = []
+    for n, t, s in f.roots:
+        if s in ("{{:^{}s}}", "{{:^{:d}s}}"):
+            widths.append(A.fields_of(t)[0].expr)
+        else:
+            for fld in A.fields_of(t):
+                sp = fld.spec
+                if len(sp) == 3 and sp[0] == "^" and isinstance(sp[1], A.Field) and sp[2] == "s":
+                    widths.append(sp[1].expr)
+    if len(widths) != 1:
+        f.fail("centred width `length + K` not found")
+    terms, k = A.linear(widths[0], f.sc)
+    if sorted(c for c, _ in terms.values()) != [1]:
+        f.fail("centred width `length + K` not found")
+    C["headerPad"] = k
 
-    # ---- _get_lcd_cp_ports
-    fn = find_func(tf, "_get_lcd_cp_ports", "Frontend")
-    m = one_match(fn, r"\{\} \{:>(\d+)\} \{\} \{:>(\d+)\} \{\}", "_get_lcd_cp_ports")
+
+def lcd_cp_ports(f, C):
+    _, _, m = f.one_skel(r"\{\} \{:>(\d+)\} \{\} \{:>(\d+)\} \{\}", "CP/LCD cell format")
     if m.group(1) != m.group(2):
-        raise TranslateError("_get_lcd_cp_ports: CP and LCD widths differ")
+        f.fail("CP and LCD widths differ")
     C["cellWidth"] = int(m.group(1))
-    if len(fn.args.defaults) != 1:
-        raise TranslateError("_get_lcd_cp_ports: separator default")
-    lcdcp_sep = ceval(fn.args.defaults[0], {})
+    return f.default_of_last_param("separator default")
 
-    # ---- combined_view
-    fn = find_func(tf, "combined_view", "Frontend")
-    env = local_consts(fn)
-    for k in ("s", "lineno_filler", "col_sep", "headline"):
-        if not isinstance(env.get(k), str):
-            raise TranslateError("combined_view: constant `%s` not found" % k)
-    if len(env["col_sep"]) != 1 or lcdcp_sep != env["col_sep"]:
-        raise TranslateError("combined_view: col_sep must be one character and equal the CP/LCD separator")
-    C["combinedTitle"] = env["s"]
-    C["linenoFiller"] = env["lineno_filler"]
-    C["colSep"] = ord(env["col_sep"])
-    C["headline"] = env["headline"]
-    # width of the first `separator` (used to centre the headline): statements on `separator`
-    # before `headline_str` are executed for two layouts; it must be  Σ(len+3) + digits(last line) + K
+
+def combined_view(f, C, flags, lcdcp_sep):
+    C["combinedTitle"] = f.title()
+    # column separator: what _get_separator_list is called with
+    sl = f.self_calls("_get_separator_list")
+    if len(sl) != 1 or len(sl[0].args) != 1 or sl[0].keywords:
+        f.fail("call of _get_separator_list(col_sep) not found")
+    col_sep = f.char(sl[0].args[0], "col_sep")
+    if lcdcp_sep != col_sep:
+        f.fail("col_sep must equal the CP/LCD separator")
+    C["colSep"] = ord(col_sep)
+
+    # header line of the table: <filler> + port numbers + |  CP  | LCD  |
+    pn = f.self_calls("_get_port_number_line")
+    if len(pn) != 1:
+        f.fail("call of _get_port_number_line not found")
+    owners = [(n, t) for n, t, _ in f.roots if any(x is pn[0] for x in ast.walk(n))]
+    if len(owners) != 1:
+        f.fail("port line expression not found")
+    t = owners[0][1]
+    idx = [i for i, p in enumerate(t) if isinstance(p, A.Field) and p.expr is pn[0]]
+    if len(idx) != 1 or not p_plain(t[idx[0]]):
+        f.fail("port line expression not found")
+    i = idx[0]
+    before, after = t[:i], t[i + 1:]
+    if len(before) > 1 or (before and not isinstance(before[0], str)) or len(after) != 1 or not isinstance(after[0], str):
+        f.fail("port line is not <filler> + port numbers + <CP/LCD titles>")
+    filler = before[0] if before else ""
+    C["linenoFiller"] = filler
+    cells = after[0].split(col_sep)
+    if len(cells) != 4 or cells[0] != "" or cells[3] != "" or len(cells[1]) != len(cells[2]):
+        f.fail("CP/LCD title cells: expected %r<CP>%r<LCD>%r with equal widths, got %r" % (col_sep, col_sep, col_sep, after[0]))
+    w = len(cells[1])
+    titles = [c.strip() for c in cells[1:3]]
+    if any(format(tt, "^%d" % w) != c or not tt for tt, c in zip(titles, cells[1:3])):
+        f.fail("CP/LCD titles are not centred in their cells: %r" % cells[1:3])
+    C["cpTitleWidth"], C["cpTitle"], C["lcdTitle"] = w, titles[0], titles[1]
+
+    # headline, centred over the first separator
+    head = None  # (headline text, node of the width expression)
+    for n, t, s in f.roots:
+        if s == "{{:^{}}}":  # two-step: fmt = "{{:^{}}}".format(width); fmt.format(headline)
+            users = [c for c in f.calls("format") if f.sc.deref(c.func.value)[0] is n]
+            if len(users) != 1 or len(users[0].args) != 1 or users[0].keywords:
+                f.fail("headline centring format is not applied once")
+            head = (users[0].args[0], A.fields_of(t)[0].expr, users[0])
+        for fld in A.fields_of(t):
+            if len(fld.spec) == 2 and fld.spec[0] == "^" and isinstance(fld.spec[1], A.Field) and fld.conv is None:
+                head = (fld.expr, fld.spec[1].expr, n)
+    for c in f.calls("center"):
+        if len(c.args) == 1 and not c.keywords:
+            head = (c.func.value, c.args[0], c)
+    if head is None:
+        f.fail("headline centring format not found")
+    C["headline"] = f.const(head[0], "headline", str)
+    wd, _ = f.sc.deref(head[1])
+    if not (isinstance(wd, ast.Call) and isinstance(wd.func, ast.Name) and wd.func.id == "len" and len(wd.args) == 1
+            and isinstance(wd.args[0], ast.Name)):
+        f.fail("headline is not centred over len(<separator>)")
+    sep_name = wd.args[0].id
+    # the statements that build that separator: top-level statements on it before the width is taken
+    stop = wd
+    while id(stop) in f.parents and f.parents[id(stop)] is not f.node:
+        stop = f.parents[id(stop)]
     stmts = []
-    for st in fn.body:
+    for st in f.node.body:
+        if st is stop:
+            break
         tgt = None
-        if isinstance(st, ast.Assign) and isinstance(st.targets[0], ast.Name):
+        if isinstance(st, ast.Assign) and len(st.targets) == 1 and isinstance(st.targets[0], ast.Name):
             tgt = st.targets[0].id
         elif isinstance(st, ast.AugAssign) and isinstance(st.target, ast.Name):
             tgt = st.target.id
-        if tgt == "headline_str":
-            break
-        if tgt in ("separator", "col_sep"):
+        if tgt == sep_name:
             stmts.append(st)
+    if not stmts:
+        f.fail("statements building the first separator not found")
+    mp = f.self_calls("_get_max_port_len")
+    if len(mp) != 1 or len(mp[0].args) != 1 or not isinstance(mp[0].args[0], ast.Name) \
+            or not isinstance(f.parents.get(id(mp[0])), ast.Assign) \
+            or not isinstance(f.parents[id(mp[0])].targets[0], ast.Name):
+        f.fail("`port_len = self._get_max_port_len(kernel)` not found")
+    pl_name, k_name = f.parents[id(mp[0])].targets[0].id, mp[0].args[0].id
+    consts = {}
+    for name, b in f.sc.binds(f.node).items():
+        if len(b) == 1 and b[0][0] == "assign" and name not in (sep_name, pl_name, k_name):
+            try:
+                consts[name] = A.const_eval(b[0][1], f.sc)
+            except A.NotConst:
+                pass
 
     class _K:  # stand-in for an instruction form
         def __init__(self, n):
             self.line_number = n
 
     def sep_len(port_len, last):
-        loc = {"port_len": port_len, "kernel": [_K(last)]}
+        loc = dict(consts)
+        loc.update({pl_name: port_len, k_name: [_K(last)]})
+        g = {"__builtins__": dict(A.SAFE_BUILTINS)}
+        g.update(A.module_constants(f.sc))
         try:
-            exec(compile(ast.Module(body=stmts, type_ignores=[]), "<gen>", "exec"), {"__builtins__": {}, **SAFE}, loc)
+            exec(compile(ast.Module(body=stmts, type_ignores=[]), "<gen>", "exec"), g, loc)
         except Exception as ex:  # noqa
-            raise TranslateError("combined_view: separator statements not executable: %s" % ex)
-        if set(loc["separator"]) - {"-"}:
-            raise TranslateError("combined_view: separator is not made of dashes")
-        return len(loc["separator"])
+            f.fail("separator statements not executable: %s" % ex)
+        if not isinstance(loc.get(sep_name), str) or set(loc[sep_name]) - {"-"}:
+            f.fail("separator is not made of dashes")
+        return len(loc[sep_name])
 
     k0 = sep_len([], 7) - 1
     for pl, last in (([4, 5, 7], 123), ([4], 9), ([6, 6], 10000)):
         if sep_len(pl, last) != sum(x + 3 for x in pl) + len(str(last)) + k0:
-            raise TranslateError("combined_view: separator length is not Σ(len+3) + digits + K")
+            f.fail("separator length is not Σ(len+3) + digits + K")
     C["sepTail"] = k0
-    hl = [n for n in ast.walk(fn) if isinstance(n, ast.Constant) and n.value == "{{:^{}}}"]
-    if len(hl) != 1:
-        raise TranslateError("combined_view: headline centring format not found")
-    # CP/LCD titles
-    m = None
-    for n in ast.walk(fn):
-        if (isinstance(n, ast.Call) and isinstance(n.func, ast.Attribute) and n.func.attr == "format"
-                and isinstance(n.func.value, ast.Constant) and isinstance(n.func.value.value, str)):
-            mm = re.fullmatch(r"\{\}\{:\^(\d+)\}\{\}\{:\^(\d+)\}\{\}", n.func.value.value)
-            if mm:
-                if mm.group(1) != mm.group(2) or len(n.args) != 5:
-                    raise TranslateError("combined_view: CP/LCD title format")
-                m = (int(mm.group(1)), ceval(n.args[1], env), ceval(n.args[3], env))
-    if m is None:
-        raise TranslateError("combined_view: CP/LCD title format not found")
-    C["cpTitleWidth"], C["cpTitle"], C["lcdTitle"] = m
-    C["rowNumWidth"] = int(one_match(fn, r"\{:(\d+)d\} \{\}\{\} \{\} \{\}\n", "combined_view row format").group(1))
-    m = one_match(fn, r" \{:>(\d+)\}  \{:>(\d+)\}  \n", "combined_view totals format")
-    if m.group(1) != m.group(2):
-        raise TranslateError("combined_view: CP and LCD total widths differ")
-    C["sumWidth"] = int(m.group(1))
-    # ignore_unknown test: `if not ignore_unknown and INSTR_FLAGS.TP_UNKWN in [...]`
+
+    # rows and totals
+    _, _, m = f.one_skel(r"\{:(\d+)d\} \{\}\{\} \{\} \{\}\n", "row format")
+    C["rowNumWidth"] = int(m.group(1))
+    _, _, m = f.one_skel(r"(.*)\{\} \{:>(\d+)\}  \{:>(\d+)\}  \n", "totals format")
+    if m.group(2) != m.group(3):
+        f.fail("CP and LCD total widths differ")
+    if m.group(1) != esc(filler):
+        f.fail("totals line does not start with the line-number filler")
+    C["sumWidth"] = int(m.group(2))
+    totals_node = f.skel_matches(r"(.*)\{\} \{:>(\d+)\}  \{:>(\d+)\}  \n")[0][0]
+
+    # `if not ignore_unknown and TP_UNKWN in flags: missing-instruction error  else: totals`
+    me = f.self_calls("_missing_instruction_error")
+    if len(me) != 1:
+        f.fail("call of _missing_instruction_error not found")
     unk = None
-    for n in ast.walk(fn):
-        if isinstance(n, ast.If) and isinstance(n.test, ast.BoolOp) and isinstance(n.test.op, ast.And):
-            a, b = n.test.values[0], n.test.values[-1]
-            if (isinstance(a, ast.UnaryOp) and isinstance(a.op, ast.Not) and isinstance(a.operand, ast.Name)
-                    and a.operand.id == "ignore_unknown" and isinstance(b, ast.Compare)
-                    and isinstance(b.ops[0], ast.In) and len(n.test.values) == 2):
-                unk = flag_attr(b.left, flags)
+    for n in A.walk_in_order(f.node):
+        if not isinstance(n, ast.If):
+            continue
+        kind, lits = A.bool_lits(n.test, f.sc)
+        if len(lits) != 2:
+            continue
+        flagl = [l for l in lits if l.cmp and l.cmp[0] in (ast.In, ast.NotIn)]
+        optl = [l for l in lits if not l.cmp and isinstance(l.expr, ast.Name) and l.expr.id == "ignore_unknown"]
+        if len(flagl) != 1 or len(optl) != 1:
+            continue
+        fl, opt = flagl[0], optl[0]
+        present = fl.cmp[0] is ast.In
+        then_has = any(x is me[0] for st in n.body for x in ast.walk(st))
+        else_has = any(x is me[0] for st in n.orelse for x in ast.walk(st))
+        # condition of the error branch must be: (not ignore_unknown) and (flag present)
+        if kind == "and" and not opt.pos and present and then_has and not else_has:
+            ok_else = n.orelse
+        elif kind == "or" and opt.pos and not present and else_has and not then_has:
+            ok_else = n.body
+        else:
+            f.fail("`not ignore_unknown and TP_UNKWN in flags` does not select the missing-instruction error")
+        # the totals are produced only when the error is not: in the other branch, or after an
+        # error branch that returns
+        in_other = any(x is totals_node for st in ok_else for x in ast.walk(st))
+        err_branch = n.body if ok_else is n.orelse else n.orelse
+        returns = bool(err_branch) and isinstance(err_branch[-1], ast.Return)
+        after = False
+        par = f.parents.get(id(n))
+        body = getattr(par, "body", [])
+        if n in body:
+            after = any(x is totals_node for st in body[body.index(n) + 1:] for x in ast.walk(st))
+        if not (in_other or (returns and after and not ok_else)):
+            f.fail("totals line is not the alternative of the missing-instruction error")
+        unk = const_flag(f, fl.cmp[1], flags)
     if unk is None:
-        raise TranslateError("combined_view: `not ignore_unknown and TP_UNKWN in flags` test not found")
+        f.fail("`not ignore_unknown and TP_UNKWN in flags` test not found")
     C["unknownFlag"] = unk
 
-    # ---- _missing_instruction_error
-    fn = find_func(tf, "_missing_instruction_error", "Frontend")
-    tmpl = None
-    for n in ast.walk(fn):
-        if isinstance(n, ast.Call) and isinstance(n.func, ast.Attribute) and n.func.attr == "format":
-            tmpl = ceval(n.func.value, {})
-            args = n.args
-    if tmpl is None or tmpl.count("{}") != 2 or len(args) != 2 or not isinstance(args[0], ast.Name):
-        raise TranslateError("_missing_instruction_error: template with two {} not found")
-    probe = ceval(args[1], {args[0].id: 12345})
-    if probe != "-----":
-        raise TranslateError("_missing_instruction_error: second argument is not '-' * len(str(amount))")
-    C["missingPre"], C["missingMid"], C["missingPost"] = tmpl.split("{}")
 
-    # ---- warnings
-    fn = find_func(tf, "_user_warnings_header", "Frontend")
-    env = local_consts(fn)
-    if not isinstance(env.get("arch_text"), str) or not isinstance(env.get("length_text"), str):
-        raise TranslateError("_user_warnings_header: arch_text / length_text not found")
-    C["archWarning"], C["lengthWarning"] = env["arch_text"], env["length_text"]
-    if env.get("warnings") != "":
-        raise TranslateError("_user_warnings_header: warnings does not start empty")
-    fn = find_func(tf, "_user_warnings_footer", "Frontend")
-    env = local_consts(fn)
-    if not isinstance(env.get("lcd_text"), str) or env.get("warnings") != "\n":
-        raise TranslateError("_user_warnings_footer: lcd_text not found")
-    C["lcdWarning"] = env["lcd_text"]
+def p_plain(fld):
+    return fld.conv is None and not fld.spec
 
-    # ---- flag symbols (order of the statements) and the symbol map
-    fn = find_func(tf, "_get_flag_symbols", "Frontend")
-    syms = []
-    blank = None
-    for st in fn.body:
-        if isinstance(st, ast.AugAssign) and isinstance(st.value, ast.IfExp):
-            ie = st.value
-            if isinstance(ie.test, ast.Compare) and isinstance(ie.test.ops[0], ast.In):
-                if ceval(ie.orelse, {}) != "":
-                    raise TranslateError("_get_flag_symbols: else branch not empty")
-                sym = ceval(ie.body, {})
-                if len(sym) != 1:
-                    raise TranslateError("_get_flag_symbols: symbol is not one character")
-                syms.append((ord(sym), flag_attr(ie.test.left, flags)))
-            else:
-                blank = ceval(ie.body, {})
-    if not syms or blank != " ":
-        raise TranslateError("_get_flag_symbols: symbol statements not found")
-    C["flagSymbols"] = syms
-    fn = find_func(tf, "_symbol_map", "Frontend")
-    smap = None
-    for n in ast.walk(fn):
-        if isinstance(n, ast.Dict) and n.keys:
-            smap = [(flag_attr(k, flags), ceval(v, {})) for k, v in zip(n.keys, n.values)]
-    if smap is None:
-        raise TranslateError("_symbol_map: dict literal not found")
-    one_match(fn, r" \{\} - \{\}\n", "_symbol_map line format")
-    C["symbolTexts"] = smap
 
-    # ---- LCD list
-    fn = find_func(tf, "loopcarried_dependencies", "Frontend")
-    env = local_consts(fn)
-    if not isinstance(env.get("s"), str):
-        raise TranslateError("loopcarried_dependencies: title not found")
-    C["lcdTitle2"] = env["s"]
-    m = one_match(fn, r"\{:(\d+)d\} \{\} \{:(\d+)\.(\d+)f\} \{\} \{:(\d+)\}\{\} \{\}\n", "LCD list line format")
+def const_flag(f, node, flags):
+    v = f.const(node, "flag", str)
+    if v not in flags.values():
+        f.fail("expected an INSTR_FLAGS value at line %s, got %r" % (getattr(node, "lineno", "?"), v))
+    return v
+
+
+# --------------------------------------------------------------------------- executed helpers
+class _Flags:
+    pass
+
+
+def sandboxed(base, cls, name, flags, **self_attrs):
+    """the method `name` compiled alone, as a callable of its arguments WITHOUT self (a stub `self`
+    is supplied unless the method is a staticmethod)"""
+    fn = A.find_method(cls, name)
+    what = "%s.%s" % (cls.name, name)
+    ns = _Flags()
+    ns.__dict__.update(flags)
+    f = A.sandbox_function(fn, base.at(cls=cls, fn=fn), {"INSTR_FLAGS": ns})
+    stub = A.Stub(**A.class_constants(base, cls))
+    stub.__dict__.update(self_attrs)
+    static = any(isinstance(d, ast.Name) and d.id == "staticmethod" for d in fn.decorator_list)
+
+    def call(*args):
+        return A.call_pure(what, f, *(args if static else (stub,) + args))
+
+    return call
+
+
+def missing_error(base, cls, flags, C):
+    what = "Frontend._missing_instruction_error"
+    call = sandboxed(base, cls, "_missing_instruction_error", flags)
+    r1, r2, r5 = call(7), call(42), call(97531)
+    if not all(isinstance(r, str) for r in (r1, r2, r5)) or "97531" not in r5:
+        raise TranslateError("%s: result is not a text with the amount in it" % what)
+    pre = r5[: r5.index("97531")]
+    if not (r1.startswith(pre + "7") and r2.startswith(pre + "42")):
+        raise TranslateError("%s: text before the amount varies" % what)
+    rest1, rest2 = r1[len(pre) + 1:], r2[len(pre) + 2:]
+    k = 0
+    while k < min(len(rest1), len(rest2)) and rest1[-1 - k] == rest2[-1 - k]:
+        k += 1
+    post = rest1[len(rest1) - k:].lstrip("-")
+    mid = rest1[: len(rest1) - len(post) - 1]
+    for a in (7, 42, 97531, 100, 0, 123456789012):
+        if call(a) != pre + str(a) + mid + "-" * len(str(a)) + post:
+            raise TranslateError("%s: not of the form <pre>{amount}<mid>{'-' * len(str(amount))}<post>" % what)
+    C["missingPre"], C["missingMid"], C["missingPost"] = pre, mid, post
+
+
+def user_warnings(base, cls, flags, C):
+    what = "Frontend._user_warnings_header"
+    fn = sandboxed(base, cls, "_user_warnings_header", flags)
+    r = {(a, l): fn(a, l) for a in (False, True) for l in (False, True)}
+    if not all(isinstance(x, str) for x in r.values()) or r[False, False] != "\n":
+        raise TranslateError("%s: without warnings the result is not one newline" % what)
+    arch, length = r[True, False][:-1], r[False, True][:-1]
+    if r[True, False] != arch + "\n" or r[False, True] != length + "\n" or r[True, True] != arch + length + "\n" \
+            or not arch or not length:
+        raise TranslateError("%s: not of the form [arch text][length text]\\n" % what)
+    C["archWarning"], C["lengthWarning"] = arch, length
+    what = "Frontend._user_warnings_footer"
+    fn = sandboxed(base, cls, "_user_warnings_footer", flags)
+    off, on = fn(False), fn(True)
+    if off != "\n\n" or not isinstance(on, str) or len(on) < 3 or on[0] != "\n" or on[-1] != "\n":
+        raise TranslateError("%s: not of the form \\n[lcd text]\\n" % what)
+    C["lcdWarning"] = on[1:-1]
+
+
+def flag_symbols(base, cls, flags, C):
+    import itertools
+
+    what = "Frontend._get_flag_symbols"
+    fn = sandboxed(base, cls, "_get_flag_symbols", flags)
+    call = lambda fl: fn(list(fl))  # noqa: E731
+    if call([]) != " ":
+        raise TranslateError("%s: no flag does not give one blank" % what)
+    vals = list(dict.fromkeys(flags.values()))
+    sym = {}
+    for v in vals:
+        s = call([v])
+        if s == " ":
+            continue
+        if not isinstance(s, str) or len(s) != 1:
+            raise TranslateError("%s: symbol of %s is not one character: %r" % (what, v, s))
+        sym[v] = s
+    if not sym or len(set(sym.values())) != len(sym):
+        raise TranslateError("%s: symbols not found or not distinct: %r" % (what, sym))
+    everything = call(vals)
+    if sorted(everything) != sorted(sym.values()):
+        raise TranslateError("%s: symbols of all flags together are not the single symbols: %r" % (what, everything))
+    order = sorted(sym, key=lambda v: everything.index(sym[v]))
+    if len(order) <= 8:
+        for k in range(len(order) + 1):
+            for sub in itertools.combinations(order, k):
+                for probe in (list(sub), list(reversed(sub))):
+                    if call(probe) != ("".join(sym[v] for v in order if v in sub) or " "):
+                        raise TranslateError("%s: result is not the symbols of the present flags in a fixed order" % what)
+    C["flagSymbols"] = [(ord(sym[v]), v) for v in order]
+    return fn
+
+
+def symbol_map(base, cls, flags, C, flag_fn):
+    what = "Frontend._symbol_map"
+    text = sandboxed(base, cls, "_symbol_map", flags, _get_flag_symbols=flag_fn)()
+    if not isinstance(text, str) or not text.endswith("\n"):
+        raise TranslateError("%s: result is not a sequence of lines" % what)
+    by_sym = {chr(c): v for c, v in C["flagSymbols"]}
+    entries = []
+    for line in text[:-1].split("\n"):
+        m = re.fullmatch(r" (.) - (.*)", line)
+        if not m or m.group(1) not in by_sym:
+            raise TranslateError("%s: line is not ` <symbol> - <text>`: %r" % (what, line))
+        entries.append((by_sym[m.group(1)], m.group(2)))
+    keys = [k for k, _ in entries]
+    if keys != sorted(keys) or len(set(keys)) != len(keys) or not entries:
+        raise TranslateError("%s: lines are not in the order of the sorted flags" % what)
+    C["symbolTexts"] = A.canon_order(entries, [v for _, v in C["flagSymbols"]], key=lambda e: e[0])
+
+
+# --------------------------------------------------------------------------- more static pieces
+def lcd_list(f, C):
+    C["lcdTitle2"] = f.title()
+    _, _, m = f.one_skel(r"\{:(\d+)d\} \{\} \{:(\d+)\.(\d+)f\} \{\} \{:(\d+)\}\{\} \{\}\n", "LCD list line format")
     C["lcdNumWidth"], C["lcdLatWidth"], C["lcdLatDecimals"], C["lcdRootWidth"] = [int(g) for g in m.groups()]
-    if len(fn.args.defaults) != 1 or ceval(fn.args.defaults[0], {}) != chr(C["colSep"]):
-        raise TranslateError("loopcarried_dependencies: separator default differs from col_sep")
+    if f.default_of_last_param("separator default") != chr(C["colSep"]):
+        f.fail("separator default differs from col_sep")
 
-    # ---- header
-    fn = find_func(tf, "_header_report", "Frontend")
-    env = local_consts(fn)
-    C["headerAdjust"] = env.get("adjust")
-    title = one_match(fn, r"(.*) - \{\}\n", "_header_report title").group(0)
-    C["headerTitle"] = title[:-3]
-    labels = []
-    for n in ast.walk(fn):
-        if (isinstance(n, ast.Call) and isinstance(n.func, ast.Attribute) and n.func.attr == "ljust"
-                and isinstance(n.func.value, ast.Constant)):
-            labels.append((n.lineno, n.func.value.value))
-    labels = [l for _, l in sorted(labels)]
-    if len(labels) != 3 or not isinstance(C["headerAdjust"], int):
-        raise TranslateError("_header_report: three ljust labels expected")
-    C["headerLabels"] = labels
 
-    # ---- dict warnings
-    fn = find_func(tf, "full_analysis_dict", "Frontend")
-    dw = []
-    for n in ast.walk(fn):
-        if (isinstance(n, ast.Call) and isinstance(n.func, ast.Attribute) and n.func.attr == "append"
-                and isinstance(n.func.value, ast.Name) and n.func.value.id == "warnings"):
-            dw.append((n.lineno, ceval(n.args[0], {})))
-    dw = [w for _, w in sorted(dw)]
-    if len(dw) != 4:
-        raise TranslateError("full_analysis_dict: four warnings.append expected")
-    C["dictWarnings"] = dw
+def header_report(f, C):
+    joined = "".join(s for _, _, s in f.roots)
+    m = re.match(r"((?:[^{}\n]|\{\{|\}\})* - )\{\}\n" + r"((?:[^{}\n]|\{\{|\}\})+)\{\}\n" * 3, joined)
+    if not m:
+        f.fail("title line and three labelled lines expected, got %r" % joined)
+    C["headerTitle"] = unesc(m.group(1))
+    cells = [unesc(g) for g in m.groups()[1:]]
+    if len({len(c) for c in cells}) != 1:
+        f.fail("labels are not padded to one width: %r" % cells)
+    C["headerAdjust"] = len(cells[0])
+    C["headerLabels"] = [c.rstrip(" ") for c in cells]
+    if any(not l for l in C["headerLabels"]):
+        f.fail("empty label")
 
-    # ---- osaca.py
-    tm = parse(MAIN)
-    da = None
-    for st in tm.body:
-        if isinstance(st, ast.Assign) and isinstance(st.targets[0], ast.Name) and st.targets[0].id == "DEFAULT_ARCHS":
-            da = ceval(st.value, {})
-    if not isinstance(da, dict) or not all(isinstance(k, str) and isinstance(v, str) for k, v in da.items()):
+
+def dict_warnings(f, C, flags):
+    holder = None
+    for n in A.walk_in_order(f.node):
+        if isinstance(n, ast.Dict):
+            for k, v in zip(n.keys, n.values):
+                if k is not None and A.is_const(k, f.sc) and A.const_eval(k, f.sc) == "Warnings":
+                    holder = v
+    if not isinstance(holder, ast.Name):
+        f.fail("the list under the key 'Warnings' is not a local")
+    w = holder.id
+    init = f.sc.binds(f.node).get(w, [])
+    if not init or init[0][0] != "assign" or A.is_const(init[0][1], f.sc) is False or A.const_eval(init[0][1], f.sc) != []:
+        f.fail("warning list does not start empty")
+    found = []
+    for st in A.walk_scope(f.node):
+        item = None
+        if isinstance(st, ast.Expr) and isinstance(st.value, ast.Call) and isinstance(st.value.func, ast.Attribute) \
+                and isinstance(st.value.func.value, ast.Name) and st.value.func.value.id == w:
+            c = st.value
+            if c.func.attr == "append" and len(c.args) == 1:
+                item = [f.const(c.args[0], "warning name", str)]
+            elif c.func.attr == "extend" and len(c.args) == 1:
+                item = f.const(c.args[0], "warning names", (list, tuple))
+            else:
+                f.fail("unexpected use of the warning list: .%s" % c.func.attr)
+        elif isinstance(st, ast.AugAssign) and isinstance(st.target, ast.Name) and st.target.id == w:
+            if not isinstance(st.op, ast.Add):
+                f.fail("unexpected update of the warning list")
+            item = f.const(st.value, "warning names", (list, tuple))
+        if item is None:
+            continue
+        if len(item) != 1 or not isinstance(item[0], str):
+            f.fail("one warning name per condition expected")
+        par = f.parents.get(id(st))
+        if not (isinstance(par, ast.If) and st in par.body and not par.orelse and f.parents.get(id(par)) is f.node):
+            f.fail("warning `%s` is not appended under a plain `if`" % item[0])
+        found.append((par.test, item[0]))
+    if len(found) != 4:
+        f.fail("four conditional warnings expected, found %d" % len(found))
+    for (test, _), pname in zip(found[:3], ("arch_warning", "length_warning", "lcd_warning")):
+        if not (isinstance(test, ast.Name) and test.id == pname):
+            f.fail("condition of warning %s is not the parameter `%s`" % (_, pname))
+    kind, lits = A.bool_lits(found[3][0], f.sc)
+    if not (len(lits) == 1 and lits[0].cmp and lits[0].cmp[0] is ast.In
+            and const_flag(f, lits[0].cmp[1], flags) == C["unknownFlag"]):
+        f.fail("condition of the fourth warning is not `<unknown flag> in <flags>`")
+    C["dictWarnings"] = [name for _, name in found]
+
+
+# --------------------------------------------------------------------------- osaca.py
+def default_archs(tm, C):
+    sc = A.Scope(tm)
+    v = sc.single(tm, "DEFAULT_ARCHS")
+    if v is None:
+        raise TranslateError("DEFAULT_ARCHS is not bound once at module level")
+    da = A.const_or_fail(v, sc, "DEFAULT_ARCHS", dict)
+    if not da or not all(isinstance(k, str) and isinstance(x, str) for k, x in da.items()):
         raise TranslateError("DEFAULT_ARCHS dict not found")
-    C["defaultArchs"] = list(da.items())
-    fn = find_func(tm, "inspect")
+    # order-free if the name is only ever subscripted / .get()-ed
+    par = {}
+    for n in ast.walk(tm):
+        for c in ast.iter_child_nodes(n):
+            par[id(c)] = n
+    free = True
+    for n in ast.walk(tm):
+        if isinstance(n, ast.Name) and n.id == "DEFAULT_ARCHS" and isinstance(n.ctx, ast.Load):
+            p = par.get(id(n))
+            if isinstance(p, ast.Subscript) and p.value is n and isinstance(p.ctx, ast.Load):
+                continue
+            if isinstance(p, ast.Attribute) and p.attr == "get":
+                continue
+            if isinstance(p, ast.Compare) and all(isinstance(o, (ast.In, ast.NotIn)) for o in p.ops) and p.left is not n:
+                continue
+            free = False
+    C["defaultArchs"] = sorted(da.items()) if free else list(da.items())
+
+
+def inspect_flags(tm, C):
+    f = Fn(A.Scope(tm), None, "inspect")
+    sc = f.sc
+
+    def is_args(node, attr):
+        return (isinstance(node, ast.Attribute) and node.attr == attr and isinstance(node.value, ast.Name)
+                and node.value.id == "args")
+
+    # names of the two flags: what full_analysis gets as arch_warning= / length_warning=
+    names = {}
+    for c in f.calls("full_analysis"):
+        for k in c.keywords:
+            if k.arg in ("arch_warning", "length_warning"):
+                if not isinstance(k.value, ast.Name):
+                    f.fail("%s= is not given a local" % k.arg)
+                names[k.arg] = k.value.id
+    if set(names) != {"arch_warning", "length_warning"}:
+        f.fail("full_analysis(arch_warning=..., length_warning=...) not found")
+
+    def assignments(var):
+        """[(condition path, value as (kind, payload))]: every assignment to var with the tests of the
+        enclosing `if`s; `if T: v = True else: v = False` counts as one assignment of T"""
+        out = []
+        consumed = set()
+        for n in A.walk_in_order(f.node):
+            if isinstance(n, ast.If) and len(n.body) == 1 and len(n.orelse) == 1:
+                a, b = n.body[0], n.orelse[0]
+                if all(isinstance(x, ast.Assign) and len(x.targets) == 1 and isinstance(x.targets[0], ast.Name)
+                       and x.targets[0].id == var for x in (a, b)):
+                    try:
+                        va, vb = A.const_eval(a.value, sc), A.const_eval(b.value, sc)
+                    except A.NotConst:
+                        continue
+                    if va is True and vb is False:
+                        out.append((n, ("test", n.test, False)))
+                        consumed.update((id(a), id(b)))
+                    elif va is False and vb is True:
+                        out.append((n, ("test", n.test, True)))
+                        consumed.update((id(a), id(b)))
+            if isinstance(n, ast.Assign) and id(n) not in consumed and len(n.targets) == 1 \
+                    and isinstance(n.targets[0], ast.Name) and n.targets[0].id == var:
+                try:
+                    v = A.const_eval(n.value, sc)
+                    out.append((n, ("const", v, None)))
+                except A.NotConst:
+                    out.append((n, ("test", n.value, False)))
+            elif isinstance(n, (ast.AugAssign, ast.AnnAssign)) and isinstance(n.target, ast.Name) and n.target.id == var:
+                f.fail("unexpected assignment to %s" % var)
+        return out
+
+    # ---- arch warning: not args.arch
+    asg = assignments(names["arch_warning"])
+    if len(asg) != 1 or asg[0][1][0] != "test":
+        f.fail("print_arch_warning is not `False if args.arch else True`")
+    kind, lits = A.bool_lits(asg[0][1][1], sc, negate=asg[0][1][2])
+    if not (len(lits) == 1 and not lits[0].cmp and not lits[0].pos and is_args(lits[0].expr, "arch")):
+        f.fail("print_arch_warning is not `False if args.arch else True`")
+
+    # ---- length warning: off under args.lines, else len(kernel) == len(parsed_code) and len(kernel) > N
+    asg = assignments(names["length_warning"])
+    tests = [(n, v) for n, v in asg if v[0] == "test"]
+    offs = [(n, v) for n, v in asg if v[0] == "const"]
+    if len(tests) != 1 or len(offs) != 1 or offs[0][1][1] is not False:
+        f.fail("print_length_warning: expected `= False` under --lines and one computed assignment")
+
+    def lines_branch(node):
+        """True / False: node lies in the branch of an `if` on args.lines where args.lines is truthy / falsy"""
+        child, p = node, f.parents.get(id(node))
+        while p is not None:
+            if isinstance(p, ast.If):
+                kind, lits = A.bool_lits(p.test, sc)
+                if len(lits) == 1 and not lits[0].cmp and is_args(lits[0].expr, "lines"):
+                    in_body = any(child is s for s in p.body)
+                    in_else = any(child is s for s in p.orelse)
+                    if in_body or in_else:
+                        return lits[0].pos == in_body
+            child, p = p, f.parents.get(id(p))
+        return None
+
+    if lines_branch(offs[0][0]) is not True:
+        f.fail("`print_length_warning = False` under `if args.lines` not found")
+    if lines_branch(tests[0][0]) is not False:
+        f.fail("the length warning is not computed in the branch without --lines")
+    # kernel / parsed code: kernel = reduce_to_section(parsed_code, ...)
+    red = [n for n in A.walk_in_order(f.node) if isinstance(n, ast.Call) and isinstance(n.func, ast.Name)
+           and n.func.id == "reduce_to_section"]
+    if len(red) != 1 or not red[0].args or not isinstance(red[0].args[0], ast.Name) \
+            or not isinstance(f.parents.get(id(red[0])), ast.Assign) \
+            or not isinstance(f.parents[id(red[0])].targets[0], ast.Name):
+        f.fail("`kernel = reduce_to_section(parsed_code, isa)` not found")
+    kname, pname = f.parents[id(red[0])].targets[0].id, red[0].args[0].id
+
+    def len_of(node):
+        d, _ = sc.deref(node)
+        if isinstance(d, ast.Call) and isinstance(d.func, ast.Name) and d.func.id == "len" and len(d.args) == 1 \
+                and isinstance(d.args[0], ast.Name):
+            return d.args[0].id
+        return None
+
+    kind, lits = A.bool_lits(tests[0][1][1], sc, negate=tests[0][1][2])
+    if kind != "and" or len(lits) != 2 or not all(l.cmp for l in lits):
+        f.fail("length-warning test is not `A and B`")
     thr = None
-    archw = None
-    for st in ast.walk(fn):
-        if isinstance(st, ast.Assign) and isinstance(st.targets[0], ast.Name):
-            name = st.targets[0].id
-            v = st.value
-            if name == "print_length_warning" and isinstance(v, ast.IfExp):
-                if ceval(v.body, {}) is not True or ceval(v.orelse, {}) is not False:
-                    raise TranslateError("inspect: print_length_warning is not `True if … else False`")
-                t = v.test
-                if not (isinstance(t, ast.BoolOp) and isinstance(t.op, ast.And) and len(t.values) == 2):
-                    raise TranslateError("inspect: length-warning test is not `A and B`")
-                a, b = t.values
-                d = ast.dump
-                if not (isinstance(a, ast.Compare) and isinstance(a.ops[0], ast.Eq)
-                        and {d(a.left), d(a.comparators[0])} == {d(ast.parse("len(kernel)", mode="eval").body),
-                                                                 d(ast.parse("len(parsed_code)", mode="eval").body)}):
-                    raise TranslateError("inspect: length-warning test lacks len(kernel) == len(parsed_code)")
-                if not (isinstance(b, ast.Compare) and isinstance(b.ops[0], ast.Gt)
-                        and d(b.left) == d(ast.parse("len(kernel)", mode="eval").body)
-                        and isinstance(b.comparators[0], ast.Constant)):
-                    raise TranslateError("inspect: length-warning test lacks len(kernel) > N")
-                thr = b.comparators[0].value
-            if name == "print_arch_warning" and isinstance(v, ast.IfExp):
-                if (ceval(v.body, {}) is False and ceval(v.orelse, {}) is True
-                        and ast.dump(v.test) == ast.dump(ast.parse("args.arch", mode="eval").body)):
-                    archw = True
-    if thr is None or not isinstance(thr, int):
-        raise TranslateError("inspect: length-warning threshold not found")
-    if not archw:
-        raise TranslateError("inspect: print_arch_warning is not `False if args.arch else True`")
-    # with --lines the warning is off
-    lines_off = False
-    for n in ast.walk(fn):
-        if isinstance(n, ast.If) and ast.dump(n.test) == ast.dump(ast.parse("args.lines", mode="eval").body):
-            for st in n.body:
-                if (isinstance(st, ast.Assign) and st.targets[0].id == "print_length_warning"
-                        and ceval(st.value, {}) is False):
-                    lines_off = True
-    if not lines_off:
-        raise TranslateError("inspect: `print_length_warning = False` under `if args.lines` not found")
+    same = False
+    for l in lits:
+        op, a, b = A.norm_compare(l.cmp)
+        if op is ast.Eq and {len_of(a), len_of(b)} == {kname, pname}:
+            same = True
+        elif op in (ast.Gt, ast.GtE) and len_of(a) == kname:
+            t = A.const_or_fail(b, sc, "inspect: length threshold", int)
+            thr = t if op is ast.Gt else t - 1
+        elif op in (ast.Gt, ast.GtE):
+            f.fail("length-warning test lacks len(kernel) > N")
+    if not same:
+        f.fail("length-warning test lacks len(kernel) == len(parsed_code)")
+    if thr is None or isinstance(thr, bool):
+        f.fail("length-warning threshold not found")
     C["lengthThreshold"] = thr
+
+
+# --------------------------------------------------------------------------- the generator
+@generator("ReportConsts", [FRONT, MAIN, ISA])
+def gen_reportconsts():
+    tf = parse(FRONT)
+    flags = instr_flags()
+    cls = A.find_class(tf, "Frontend")
+    base = A.Scope(tf, ext={"INSTR_FLAGS": flags})
+    C = {}
+
+    try:
+        max_port_len(Fn(base, cls, "_get_max_port_len"), C)
+    except TranslateError as ex:
+        max_port_len_probe(base, cls, flags, C, ex)
+    port_pressure(Fn(base, cls, "_get_port_pressure"), C)
+    separator_list(Fn(base, cls, "_get_separator_list"), C)
+    port_number_line(Fn(base, cls, "_get_port_number_line"), C)
+    lcdcp_sep = lcd_cp_ports(Fn(base, cls, "_get_lcd_cp_ports"), C)
+    combined_view(Fn(base, cls, "combined_view"), C, flags, lcdcp_sep)
+    missing_error(base, cls, flags, C)
+    user_warnings(base, cls, flags, C)
+    flag_fn = flag_symbols(base, cls, flags, C)
+    symbol_map(base, cls, flags, C, flag_fn)
+    lcd_list(Fn(base, cls, "loopcarried_dependencies"), C)
+    header_report(Fn(base, cls, "_header_report"), C)
+    dict_warnings(Fn(base, cls, "full_analysis_dict"), C, flags)
+
+    tm = parse(MAIN)
+    default_archs(tm, C)
+    inspect_flags(tm, C)
 
     # ---- emit
     nat_keys = ["minPortLen", "portLenDecimals", "fallbackDecimals", "cellReserve", "colSep", "groupSep",
@@ -393,16 +933,19 @@ def gen_reportconsts():
                 "missingPost", "archWarning", "lengthWarning", "lcdWarning", "unknownFlag", "lcdTitle2", "headerTitle"]
     out = [HEADER, "namespace OsacaVerif.Gen.Report\n"]
     for k in nat_keys:
-        if not isinstance(C[k], int) or C[k] < 0:
+        if not isinstance(C[k], int) or isinstance(C[k], bool) or C[k] < 0:
             raise TranslateError("%s is not a natural number: %r" % (k, C[k]))
         out.append("def %s : Nat := %d" % (k, C[k]))
     out.append("")
     for k in txt_keys:
         v = C[k]
-        if not v.isascii():
-            raise TranslateError("%s is not ASCII" % k)
+        if not isinstance(v, str) or not v.isascii():
+            raise TranslateError("%s is not ASCII text" % k)
         out.append("/-- %s -/" % repr(v).replace("-/", "- /"))
         out.append("def %s : List Nat := %s" % (k, txt(v)))
+    for k in ("headerLabels", "dictWarnings"):
+        if not all(isinstance(x, str) and x.isascii() for x in C[k]):
+            raise TranslateError("%s is not ASCII text" % k)
     out.append("")
     out.append("/-- `_get_flag_symbols`: (symbol, flag) in the order the symbols are appended -/")
     out.append("def flagSymbols : List (Nat × List Nat) := [%s]" % ", ".join("(%d, %s)" % (c, txt(f)) for c, f in C["flagSymbols"]))
